@@ -454,7 +454,7 @@ def hash_name(name):
 
 
 def _scalars():
-    return st.one_of(st.integers(-2, 9), st.sampled_from(["a", "b", "k", "xy", "0"]))
+    return st.one_of(st.sampled_from([1, 2, 3, 7, 9, 0, -1]), st.sampled_from(["a", "b", "c", "z", "k", "xy", "0"]))
 
 
 def _container(depth=2):
@@ -462,7 +462,7 @@ def _container(depth=2):
     if depth <= 0:
         inner = leaf
     else:
-        inner = st.one_of(leaf, st.deferred(lambda: _container(depth - 1)))
+        inner = st.one_of(leaf, leaf, st.deferred(lambda: _container(depth - 1)))
     hashable = _scalars()
     return st.one_of(
         st.lists(inner, max_size=4),
@@ -473,16 +473,41 @@ def _container(depth=2):
     )
 
 
+_mutators = {}
+
+
+def mutator_names(tname):
+    """Names for which some argument shape changes the sample container in plain Python (harness-side trial)."""
+    if tname not in _mutators:
+        out = []
+        for m in method_names(tname):
+            for sk in SHAPE_KEYS:
+                args, kwargs = SHAPES[sk]
+                case = {"kind": "method", "data": SAMPLES[tname], "method": m, "args": args, "kwargs": kwargs, "nest": "top"}
+                if _plain_call(case)[0]:
+                    out.append(m)
+                    break
+        _mutators[tname] = out
+    return _mutators[tname]
+
+
 @st.composite
 def random_method_case(draw):
     data = draw(_container(1))
     tname = type(dec(data)).__name__
     names = method_names(tname)
-    pub = [n for n in names if not n.startswith("_")]
-    m = draw(st.sampled_from(pub if draw(st.integers(0, 3)) else names))
-    nargs = draw(st.integers(0, 2))
-    args = [draw(st.one_of(_scalars(), _container(1))) for _ in range(nargs)]
-    kwargs = draw(st.one_of(st.just({}), st.just({}), st.fixed_dictionaries({"z": _scalars()}), st.just({"reverse": True})))
+    which = draw(st.integers(0, 9))
+    if which < 6:
+        m = draw(st.sampled_from(mutator_names(tname)))
+    elif which < 9:
+        m = draw(st.sampled_from([n for n in names if not n.startswith("_")]))
+    else:
+        m = draw(st.sampled_from(names))
+    if draw(st.integers(0, 9)) < 7:
+        args, kwargs = SHAPES[draw(st.sampled_from(SHAPE_KEYS))]
+    else:
+        args = [draw(st.one_of(_scalars(), _container(1))) for _ in range(draw(st.integers(0, 2)))]
+        kwargs = draw(st.one_of(st.just({}), st.just({}), st.fixed_dictionaries({"z": _scalars()}), st.just({"reverse": True})))
     return {"kind": "method", "async": draw(st.booleans()), "data": data, "method": m, "args": args, "kwargs": kwargs,
             "route": draw(st.sampled_from(ROUTE_KEYS)), "nest": draw(st.sampled_from(NEST_KEYS))}
 
@@ -524,9 +549,9 @@ def run_shard(spec, ctx):
     if not rec.violations:
         core.enum_shard(core.sliced(filter_cases(), ctx.index, ctx.nshards), check_case, ctx, rec=rec, stop_after=6)
     if not rec.violations:
-        core.hyp_shard(random_method_case(), check_case, ctx, ctx.pick(1500, 40000), rec=rec, tag="m")
+        core.hyp_shard(random_method_case(), check_case, ctx, ctx.pick(1500, 65000), rec=rec, tag="m")
     if not rec.violations:
-        core.hyp_shard(random_filter_case(), check_case, ctx, ctx.pick(1500, 40000), rec=rec, tag="f")
+        core.hyp_shard(random_filter_case(), check_case, ctx, ctx.pick(1500, 65000), rec=rec, tag="f")
     return rec
 
 
